@@ -235,6 +235,9 @@ func (s *simController) SendToReplicas(replicas lib.ValidatorSet, msg lib.Signab
 		if !ok {
 			continue
 		}
+		if n.w.cfg.byzActive && n.w.adv.blockedByPlan(n.idx, to, m) {
+			continue
+		}
 		n.w.send(n.idx, to, bz, d)
 	}
 }
@@ -294,6 +297,10 @@ func (s *simController) GossipBlock(qc *lib.QuorumCertificate, sender []byte, ti
 		}
 		if n.byz && n.w.cfg.byzActive && !n.w.faultsOff() && n.w.c.T.Chance(1, 2) {
 			n.w.c.Fault("byz_withholds_commit_gossip")
+			return
+		}
+		if n.w.cfg.byzActive && n.w.adv.suppressGossip() && n.w.c.T.Chance(9, 10) {
+			n.w.c.Fault("cert_gossip_lost")
 			return
 		}
 		n.w.gossipCert(n, q)
